@@ -174,6 +174,10 @@ class V1Gen(object):
         nm = self.fresh(rng.choice(['acmeTrap', 'acmeTrap', 'acme-trap-']))      # SMIv1 names often carry hyphens
         num = rng.choice([0, 1, 2, 5, 6, 255, 2 ** 31 - 1])
         objs = rng.sample(self.objects, min(len(self.objects), rng.randint(0, 3))) if self.objects else []
+        # ENTERPRISE takes an object identifier value: a name, or a name followed by further arcs
+        arcs = tuple(rng.choice([1, 2, 7, 0]) for _ in range(rng.choice([0, 0, 0, 1, 2]))) if enterprise is None else ()
+        if arcs:
+            ent, eoid = '%s %s' % (ent, ' '.join(map(str, arcs))), eoid + arcs
         self.decls.append({'kind': 'trap', 'name': nm, 'enterprise': ent, 'number': num, 'variables': objs,
                            'descr': rng.choice([None, 'trap text']), 'reference': rng.choice([None, None, 'ref'])})
         self.truth[nm] = {'class': 'notificationtype', 'oid': eoid + (0, num), 'objects': list(objs)}
